@@ -12,7 +12,7 @@ import (
 
 func cmdSelftest(args []string) int {
 	if len(args) < 1 {
-		fmt.Fprintln(os.Stderr, "usage: verif selftest determinism [ID...] | fidelity")
+		fmt.Fprintln(os.Stderr, "usage: verif selftest determinism [--procs N] [ID...] | fidelity | instr")
 		return 2
 	}
 	switch args[0] {
@@ -20,6 +20,15 @@ func cmdSelftest(args []string) int {
 		return selfDeterminism(args[1:])
 	case "fidelity":
 		return selfFidelity()
+	case "instr":
+		cmd := exec.Command(filepath.Join(verifDir, "cmd/siminstr/selfcheck.sh"))
+		cmd.Env = goEnv()
+		out, err := cmd.CombinedOutput()
+		fmt.Print(string(out))
+		if err != nil {
+			return 2
+		}
+		return 0
 	}
 	fmt.Fprintln(os.Stderr, "unknown selftest", args[0])
 	return 2
